@@ -1,3 +1,6 @@
-import Preflate.Props.C07
+import Preflate.Props.C07Complete
 #print axioms Preflate.write_parse_bits
 #print axioms Preflate.write_parse
+#print axioms Preflate.parse_write
+#print axioms Preflate.parse_wellFormed
+#print axioms Preflate.parse_iff
